@@ -127,6 +127,18 @@ pub fn check_c06_entry(u: &Universe, k: &str, v: &str, l0: &Local, coll: &Collec
     if li.to_string() != *v || !changed {
         tviol(coll, l0, "c06.entry", "LanguageIdentifier(K).maximize() != V".into(), u, kt, format!("true, {}", v), format!("{}, {}", changed, li));
     }
+    // the key written in other spellings (UPPER case with '_', each subtag capitalised, lower case):
+    // the identifier is the same, so is its maximized form -- a spelling that leaves another
+    // internal representation behind (`UND` kept as text) changes the lookup
+    if k != "und" {
+        let cap: String = k.split('-').map(|t| { let mut c = t.to_ascii_lowercase(); if let Some(f) = c.get_mut(0..1) { f.make_ascii_uppercase(); } c }).collect::<Vec<_>>().join("-");
+        for sp in [k.to_ascii_uppercase().replace('-', "_"), cap, k.to_ascii_lowercase()] {
+            match guard_total(|| { let mut li: LanguageIdentifier = sp.parse().map_err(|_| ())?; let ch = li.maximize(); Ok::<_, ()>((ch, li.to_string())) }) {
+                Ok(Ok((true, s))) if s == *v => {}
+                o => tviol(coll, l0, "c06.entry_spelling", "a CLDR key written in another letter case / with '_' does not maximize to V".into(), u, kt, format!("true, {}", v), format!("{:?} for {}", o, sp)),
+            }
+        }
+    }
 }
 
 /// LanguageIdentifier::maximize (bool + fields) against likelysubtags::maximize on one triple
